@@ -189,30 +189,46 @@ def main(argv):
                     fail("tree#deepcopy.file_reader", dict(how=how, program="plain"), "%s: %s" % (type(e).__name__, str(e)[:120]))
     if "C08" in only:
         base = CATALOGUE["plain"] + CATALOGUE["module"] + "subroutine k(w, n)\n  real, dimension(n) :: w\n  integer, intent(in) :: n\n  associate (a => w(1), b => (w(2) + 1.0))\n    a = b\n  end associate\n  open(unit=10, file='x')\n  nullify(p)\nend subroutine k\n"
-        lines = base.splitlines()
-        for li, line in enumerate(lines):
-            if "(" not in line and ")" not in line:
-                continue
-            variants = set()
-            for pos, ch in enumerate(line):
-                if ch in "()":
-                    variants.add(line[:pos] + line[pos + 1:])
-                    variants.add(line[:pos] + ch + line[pos:])
-            for v in sorted(variants):
-                # parentheses inside character context do not count
-                src = "\n".join(lines[:li] + [v] + lines[li + 1:]) + "\n"
-                outside = "".join(seg for k, seg in enumerate(v.replace('"', "'").split("'")) if k % 2 == 0)
-                if outside.count("(") == outside.count(")"):
+        from checks import enum_registries as ER2
+        more = ["do while (i < n)\n  i = i + 1\nend do", "do while ((ok) .and. (.not. done))\n  i = 1\nend do", "if (a(1) > (b + c)) then\n  x = 1\nend if",
+                "select case (f(i))\ncase (1)\n  x = 1\nend select", "where (v(1:3) > (0))\n  v = 1\nend where", "forall (i = 1:n, a(i) > 0) a(i) = 1",
+                "x = ((a + b) * (c - d)) ** (e)", "print '(a)', f(g(1), (2))", "read (unit=5, fmt='(i3)') (v(i), i = 1, 3)"]
+        mods = ["interface operator(+)\n  module procedure f\nend interface", "use m2, only: operator(.eq.), assignment(=)",
+                "procedure(real), pointer :: pp => null()", "type, extends(base) :: t2\n  integer :: k\nend type t2", "integer, dimension(size(a, 1)) :: b"]
+        bases = [("base", base)] + [("exec:%d" % i, "program p\n  %s\nend program p\n" % x) for i, x in enumerate(ER2.EXEC + more) if "(" in x] + \
+                [("spec:%d" % i, "module m\n  %s\nend module m\n" % x) for i, x in enumerate(ER2.SPEC + mods) if "(" in x]
+        for bname, btext in bases:
+            lines = btext.splitlines()
+            okstd = []
+            for std in ("f2003", "f2008"):
+                try:
+                    parse(btext, std)
+                    okstd.append(std)
+                except BaseException:  # noqa
+                    pass
+            for li, line in enumerate(lines):
+                if "(" not in line and ")" not in line:
                     continue
-                cases += 1
-                for std in ("f2003", "f2008"):
-                    try:
-                        parse(src, std)
-                        fail("parser#unbalanced_parentheses_rejected", dict(std=std, line=v, source=src), "accepted")
-                    except FortranSyntaxError:
-                        pass
-                    except BaseException as e:  # noqa
-                        fail("parser#unbalanced_parentheses_rejected", dict(std=std, line=v, source=src), "raised %s instead of FortranSyntaxError" % type(e).__name__)
+                variants = set()
+                for pos, ch in enumerate(line):
+                    if ch in "()":
+                        variants.add(line[:pos] + line[pos + 1:])
+                        variants.add(line[:pos] + ch + line[pos:])
+                for v in sorted(variants):
+                    # parentheses inside character context do not count
+                    src = "\n".join(lines[:li] + [v] + lines[li + 1:]) + "\n"
+                    outside = "".join(seg for k, seg in enumerate(v.replace('"', "'").split("'")) if k % 2 == 0)
+                    if outside.count("(") == outside.count(")"):
+                        continue
+                    cases += 1
+                    for std in okstd:
+                        try:
+                            parse(src, std)
+                            fail("parser#unbalanced_parentheses_rejected", dict(std=std, program=bname, line=v.strip(), source=src), "accepted")
+                        except FortranSyntaxError:
+                            pass
+                        except BaseException as e:  # noqa
+                            fail("parser#unbalanced_parentheses_rejected", dict(std=std, program=bname, line=v.strip(), source=src), "raised %s instead of FortranSyntaxError" % type(e).__name__)
         # structural deletions: removing the opening or the closing line of an inner construct (or the terminating
         # statement of a labelled DO) leaves an ill-nested program, which must be rejected
         import re as _re2
